@@ -1,1 +1,964 @@
-/-! # C16 — property theorems (to be filled) -/
+import PraatModel.Audio
+
+/-!
+# C16 — in-memory audio edits are sample-exact and sample-aligned
+
+Everything is about the model `PraatModel/Audio.lean`; times are exact rationals `num/den`,
+samples unbounded `Int`s restricted by `InRange`, recordings of any length.
+-/
+open Audio
+namespace C16
+
+/-! ## 1. Python `round`: nearest integer, ties to even -/
+theorem rhe_cases (num : Int) (den : Nat) (h : 0 < den) :
+    ∃ q r : Int, q * (den:Int) + r = num ∧ 0 ≤ r ∧ r < den ∧
+      roundHalfEven num den = (if 2 * r < den then q else if (den:Int) < 2 * r then q + 1 else if q % 2 = 0 then q else q + 1) := by
+  refine ⟨num / den, num % den, ?_, ?_, ?_, rfl⟩
+  · exact Int.ediv_mul_add_emod num den
+  · exact Int.emod_nonneg _ (by omega)
+  · exact Int.emod_lt_of_pos _ (by omega)
+
+/-- nearest, ties to even -/
+def IsRoundHalfEven (num : Int) (den : Nat) (q : Int) : Prop :=
+  -(den : Int) ≤ 2 * (q * den - num) ∧ 2 * (q * den - num) ≤ den ∧
+  ((2 * (q * den - num) = den ∨ 2 * (q * den - num) = -(den : Int)) → q % 2 = 0)
+
+theorem roundHalfEven_spec (num : Int) (den : Nat) (h : 0 < den) :
+    IsRoundHalfEven num den (roundHalfEven num den) := by
+  obtain ⟨q, r, hq, h0, h1, he⟩ := rhe_cases num den h
+  rw [he]; unfold IsRoundHalfEven
+  have e1 : (q + 1) * (den : Int) = q * den + den := by rw [Int.add_mul, Int.one_mul]
+  split
+  · refine ⟨by omega, by omega, by omega⟩
+  · split
+    · rw [e1]; refine ⟨by omega, by omega, by omega⟩
+    · split
+      · refine ⟨by omega, by omega, by omega⟩
+      · rw [e1]; refine ⟨by omega, by omega, by omega⟩
+
+theorem roundHalfEven_unique (num : Int) (den : Nat) (h : 0 < den) (q q' : Int)
+    (hq : IsRoundHalfEven num den q) (hq' : IsRoundHalfEven num den q') : q = q' := by
+  unfold IsRoundHalfEven at hq hq'
+  -- |q - q'| * den ≤ den, so q' ∈ {q-1, q, q+1}; the off-by-one cases are ties of opposite parity
+  have key : ∀ a b : Int, IsRoundHalfEven num den a → IsRoundHalfEven num den b → a ≤ b → a = b := by
+    intro a b ha hb hab
+    unfold IsRoundHalfEven at ha hb
+    by_cases hlt : a + 2 ≤ b
+    · exfalso
+      have : (a + 2) * (den : Int) ≤ b * den := Int.mul_le_mul_of_nonneg_right hlt (by omega)
+      rw [Int.add_mul] at this
+      omega
+    · by_cases heq : a = b
+      · exact heq
+      · exfalso
+        have hb1 : b = a + 1 := by omega
+        subst hb1
+        have e1 : (a + 1) * (den : Int) = a * den + den := by rw [Int.add_mul, Int.one_mul]
+        rw [e1] at hb
+        omega
+  rcases Int.le_total q q' with hle | hle
+  · exact key q q' hq hq' hle
+  · exact (key q' q hq' hq hle).symm
+
+theorem natAbs_form (num : Int) (den : Nat) (h : 0 < den) :
+    2 * (roundHalfEven num den * den - num).natAbs ≤ den := by
+  have := roundHalfEven_spec num den h
+  unfold IsRoundHalfEven at this
+  omega
+/-! ## 2. bytes ↔ samples -/
+theorem encLE_length (k n : Nat) : (encLE k n).length = k := by
+  induction k generalizing n with
+  | zero => rfl
+  | succ k ih => simp [encLE, ih]
+
+theorem decLE_lt (bs : List UInt8) : decLE bs < 256 ^ bs.length := by
+  induction bs with
+  | nil => simp [decLE]
+  | cons b bs ih =>
+    have hb := b.toNat_lt
+    simp only [decLE, List.length_cons, Nat.pow_succ]
+    omega
+
+theorem decLE_encLE (k n : Nat) : decLE (encLE k n) = n % 256 ^ k := by
+  induction k generalizing n with
+  | zero => simp [encLE, decLE, Nat.mod_one]
+  | succ k ih =>
+    simp only [encLE, decLE, ih]
+    have h1 : (UInt8.ofNat (n % 256)).toNat = n % 256 := by
+      simp [UInt8.toNat_ofNat']
+    rw [h1, Nat.pow_succ, Nat.mul_comm (256 ^ k) 256, Nat.mod_mul]
+
+theorem encLE_decLE (bs : List UInt8) : encLE bs.length (decLE bs) = bs := by
+  induction bs with
+  | nil => rfl
+  | cons b bs ih =>
+    have hb := b.toNat_lt
+    simp only [List.length_cons, encLE, decLE]
+    have h1 : (b.toNat + 256 * decLE bs) % 256 = b.toNat := by omega
+    have h2 : (b.toNat + 256 * decLE bs) / 256 = decLE bs := by omega
+    rw [h1, h2, ih, UInt8.ofNat_toNat]
+theorem full_eq (w : Nat) (hw : 0 < w) : full w = 2 * half w := by
+  unfold full half
+  obtain ⟨k, rfl⟩ : ∃ k, w = k + 1 := ⟨w - 1, by omega⟩
+  simp only [Nat.add_sub_cancel, Nat.pow_succ]
+  omega
+
+theorem ofSigned_lt (w : Nat) (x : Int) : ofSigned w x < full w := by
+  unfold ofSigned
+  have hF : 0 < full w := Nat.pow_pos (by decide)
+  have := Int.emod_lt_of_pos x (show (0 : Int) < (full w : Int) by omega)
+  have := Int.emod_nonneg x (show ((full w : Nat) : Int) ≠ 0 by omega)
+  omega
+
+theorem toSigned_ofSigned (w : Nat) (hw : 0 < w) (x : Int) (hx : InRange w x) :
+    toSigned w (ofSigned w x) = x := by
+  have hF := full_eq w hw
+  unfold InRange at hx
+  unfold toSigned ofSigned
+  generalize full w = F at *
+  generalize half w = H at *
+  subst hF
+  by_cases h0 : 0 ≤ x
+  · have e : x % ((2 * H : Nat) : Int) = x := Int.emod_eq_of_lt h0 (by omega)
+    rw [e]; split <;> omega
+  · have e1 : (x + ((2 * H : Nat) : Int) * 1) % ((2 * H : Nat) : Int) = x % ((2 * H : Nat) : Int) :=
+      Int.add_mul_emod_self_left x _ 1
+    have e2 : (x + ((2 * H : Nat) : Int) * 1) % ((2 * H : Nat) : Int) = x + ((2 * H : Nat) : Int) * 1 :=
+      Int.emod_eq_of_lt (by omega) (by omega)
+    rw [← e1, e2]; split <;> omega
+
+theorem toSigned_inRange (w : Nat) (hw : 0 < w) (u : Nat) (hu : u < full w) : InRange w (toSigned w u) := by
+  have hF := full_eq w hw
+  unfold InRange toSigned
+  split <;> omega
+
+theorem ofSigned_toSigned (w : Nat) (hw : 0 < w) (u : Nat) (hu : u < full w) :
+    ofSigned w (toSigned w u) = u := by
+  have hF := full_eq w hw
+  unfold toSigned ofSigned
+  generalize full w = F at *
+  generalize half w = H at *
+  subst hF
+  split
+  · have e : ((u : Int)) % ((2 * H : Nat) : Int) = u := Int.emod_eq_of_lt (by omega) (by omega)
+    rw [e]; omega
+  · have e1 : ((u : Int) - ((2 * H : Nat) : Int) + ((2 * H : Nat) : Int) * 1) % ((2 * H : Nat) : Int)
+        = ((u : Int) - ((2 * H : Nat) : Int)) % ((2 * H : Nat) : Int) := Int.add_mul_emod_self_left _ _ 1
+    have e2 : ((u : Int) - ((2 * H : Nat) : Int) + ((2 * H : Nat) : Int) * 1) % ((2 * H : Nat) : Int) = u :=
+      by rw [Int.emod_eq_of_lt (by omega) (by omega)]; omega
+    rw [← e1, e2]; omega
+
+theorem decSample_encSample (w : Nat) (hw : 0 < w) (x : Int) (hx : InRange w x) :
+    decSample w (encSample w x) = x := by
+  unfold decSample encSample
+  rw [decLE_encLE, ← full, Nat.mod_eq_of_lt (ofSigned_lt w x)]
+  exact toSigned_ofSigned w hw x hx
+
+theorem encSample_decSample (w : Nat) (hw : 0 < w) (bs : List UInt8) (hl : bs.length = w) :
+    encSample w (decSample w bs) = bs := by
+  unfold decSample encSample
+  have hlt : decLE bs < full w := by have := decLE_lt bs; rwa [hl] at this
+  rw [ofSigned_toSigned w hw _ hlt]
+  have := encLE_decLE bs
+  rwa [hl] at this
+
+theorem encSample_length (w : Nat) (x : Int) : (encSample w x).length = w := encLE_length _ _
+
+/-! ### lists of samples -/
+
+theorem unpackN_length (w n : Nat) (bs : List UInt8) : (unpackN w n bs).length = n := by
+  induction n generalizing bs with
+  | zero => rfl
+  | succ n ih => simp [unpackN, ih]
+
+theorem unpack_length (w : Nat) (bs : List UInt8) : (unpack w bs).length = bs.length / w :=
+  unpackN_length _ _ _
+
+/-- the first `n` samples only depend on the first `n*w` bytes -/
+theorem unpackN_append_left (w n : Nat) (a b : List UInt8) (h : n * w ≤ a.length) :
+    unpackN w n (a ++ b) = unpackN w n a := by
+  induction n generalizing a with
+  | zero => rfl
+  | succ n ih =>
+    have hs : (n + 1) * w = n * w + w := Nat.succ_mul n w
+    have hw : w ≤ a.length := by omega
+    simp only [unpackN]
+    rw [List.take_append_of_le_length hw, List.drop_append_of_le_length hw, ih]
+    simp only [List.length_drop]; omega
+
+theorem unpackN_add (w m n : Nat) (bs : List UInt8) :
+    unpackN w (m + n) bs = unpackN w m bs ++ unpackN w n (bs.drop (m * w)) := by
+  induction m generalizing bs with
+  | zero => simp [unpackN]
+  | succ m ih =>
+    have e : m + 1 + n = (m + n) + 1 := by omega
+    rw [e]
+    simp only [unpackN, List.cons_append, ih, List.drop_drop]
+    rw [Nat.succ_mul, Nat.add_comm w (m * w)]
+
+/-- decoding distributes over concatenation at a sample boundary -/
+theorem unpack_append (w m : Nat) (hw : 0 < w) (a b : List UInt8) (ha : a.length = m * w) :
+    unpack w (a ++ b) = unpack w a ++ unpack w b := by
+  unfold unpack
+  have e1 : (a ++ b).length / w = m + b.length / w := by
+    rw [List.length_append, ha, Nat.mul_comm m w, Nat.mul_add_div hw]
+  have e2 : a.length / w = m := by rw [ha, Nat.mul_div_cancel _ hw]
+  rw [e1, e2, unpackN_add, unpackN_append_left _ _ _ _ (by omega), List.drop_left' ha]
+
+theorem unpack_take (w k : Nat) (hw : 0 < w) (f : List UInt8) (h : k * w ≤ f.length) :
+    unpack w (f.take (k * w)) = (unpack w f).take k := by
+  have hl : (f.take (k * w)).length = k * w := by simp [List.length_take]; omega
+  have hu : (unpack w (f.take (k * w))).length = k := by
+    rw [unpack_length, hl, Nat.mul_div_cancel _ hw]
+  conv => rhs; rw [← List.take_append_drop (k * w) f, unpack_append w k hw _ _ hl]
+  rw [List.take_left' hu]
+
+theorem unpack_drop (w k : Nat) (hw : 0 < w) (f : List UInt8) (h : k * w ≤ f.length) :
+    unpack w (f.drop (k * w)) = (unpack w f).drop k := by
+  have hl : (f.take (k * w)).length = k * w := by simp [List.length_take]; omega
+  have hu : (unpack w (f.take (k * w))).length = k := by
+    rw [unpack_length, hl, Nat.mul_div_cancel _ hw]
+  conv => rhs; rw [← List.take_append_drop (k * w) f, unpack_append w k hw _ _ hl]
+  rw [List.drop_left' hu]
+
+theorem pack_cons (w : Nat) (x : Int) (xs : List Int) : pack w (x :: xs) = encSample w x ++ pack w xs := by
+  simp [pack]
+
+/-- `len(convertToBytes(xs, w)) = w * len(xs)` -/
+theorem pack_length (w : Nat) (xs : List Int) : (pack w xs).length = w * xs.length := by
+  induction xs with
+  | nil => simp [pack]
+  | cons x xs ih => rw [pack_cons, List.length_append, encSample_length, ih, List.length_cons, Nat.mul_succ]; omega
+
+theorem unpack_single (w : Nat) (hw : 0 < w) (x : Int) (hx : InRange w x) : unpack w (encSample w x) = [x] := by
+  unfold unpack
+  rw [encSample_length, Nat.div_self hw]
+  simp only [unpackN]
+  rw [List.take_of_length_le (by rw [encSample_length]; omega), decSample_encSample w hw x hx]
+
+/-- **samples → bytes → samples is the identity** (any positive width, samples in the width's range) -/
+theorem pack_unpack (w : Nat) (hw : 0 < w) (xs : List Int) (hx : ∀ x ∈ xs, InRange w x) :
+    unpack w (pack w xs) = xs := by
+  induction xs with
+  | nil => simp [pack, unpack, unpackN]
+  | cons x xs ih =>
+    rw [pack_cons, unpack_append w 1 hw _ _ (by rw [encSample_length]; omega),
+      unpack_single w hw x (hx x (by simp)), ih (fun y hy => hx y (by simp [hy]))]
+    rfl
+
+theorem pack_unpackN (w : Nat) (hw : 0 < w) (n : Nat) (bs : List UInt8) (h : bs.length = n * w) :
+    pack w (unpackN w n bs) = bs := by
+  induction n generalizing bs with
+  | zero => simp at h; simp [unpackN, pack, h]
+  | succ n ih =>
+    have hs : (n + 1) * w = n * w + w := Nat.succ_mul n w
+    simp only [unpackN]
+    rw [pack_cons, encSample_decSample w hw _ (by simp [List.length_take]; omega),
+      ih _ (by simp [List.length_drop]; omega), List.take_append_drop]
+
+/-- **bytes → samples → bytes is the identity** on byte strings holding whole samples -/
+theorem unpack_pack (w : Nat) (hw : 0 < w) (bs : List UInt8) (h : w ∣ bs.length) :
+    pack w (unpack w bs) = bs := by
+  obtain ⟨k, hk⟩ := h
+  unfold unpack
+  have : bs.length / w = k := by rw [hk, Nat.mul_div_cancel_left _ hw]
+  rw [this]
+  exact pack_unpackN w hw k bs (by rw [hk, Nat.mul_comm])
+
+/-- every decoded sample is in the width's range -/
+theorem unpackN_inRange (w : Nat) (hw : 0 < w) (n : Nat) (bs : List UInt8) (h : n * w ≤ bs.length) :
+    ∀ x ∈ unpackN w n bs, InRange w x := by
+  induction n generalizing bs with
+  | zero => intro x hx; simp [unpackN] at hx
+  | succ n ih =>
+    have hs : (n + 1) * w = n * w + w := Nat.succ_mul n w
+    intro x hx
+    simp only [unpackN, List.mem_cons] at hx
+    rcases hx with rfl | hx
+    · apply toSigned_inRange w hw
+      have := decLE_lt (bs.take w)
+      have hl : (bs.take w).length = w := by simp [List.length_take]; omega
+      rwa [hl] at this
+    · exact ih _ (by simp [List.length_drop]; omega) x hx
+
+theorem knownWidth_pos (w : Nat) (hk : knownWidth w = true) : 0 < w := by
+  cases w with
+  | zero => simp [knownWidth] at hk
+  | succ n => omega
+
+/-- `convertFromBytes(convertToBytes(xs, w), w) == xs` for the widths of `sampleWidthDict` and samples in range;
+neither call raises -/
+theorem convert_samples_roundtrip (w : Nat) (hk : knownWidth w = true) (xs : List Int)
+    (hx : ∀ x ∈ xs, InRange w x) :
+    (convertToBytes xs w >>= fun b => convertFromBytes b w) = .ok xs := by
+  have hw := knownWidth_pos w hk
+  have hall : xs.all (fun x => decide (InRange w x)) = true :=
+    List.all_eq_true.2 (fun x hx' => decide_eq_true (hx x hx'))
+  have h1 : convertToBytes xs w = .ok (pack w xs) := by unfold convertToBytes; simp [hk, hall]
+  have h2 : convertFromBytes (pack w xs) w = .ok xs := by
+    unfold convertFromBytes
+    have : (pack w xs).length % w = 0 := by rw [pack_length]; exact Nat.mul_mod_right _ _
+    simp [hk, this, pack_unpack w hw xs hx]
+  rw [h1]; exact h2
+
+/-- `convertToBytes(convertFromBytes(bs, w), w) == bs` on byte strings holding whole samples -/
+theorem convert_bytes_roundtrip (w : Nat) (hk : knownWidth w = true) (bs : List UInt8) (h : w ∣ bs.length) :
+    (convertFromBytes bs w >>= fun xs => convertToBytes xs w) = .ok bs := by
+  have hw := knownWidth_pos w hk
+  obtain ⟨k, hkk⟩ := h
+  have h1 : convertFromBytes bs w = .ok (unpack w bs) := by
+    unfold convertFromBytes
+    have : bs.length % w = 0 := by rw [hkk]; exact Nat.mul_mod_right _ _
+    simp [hk, this]
+  have hr : ∀ x ∈ unpack w bs, InRange w x := by
+    unfold unpack
+    apply unpackN_inRange w hw
+    rw [hkk, Nat.mul_div_cancel_left _ hw, Nat.mul_comm]; exact Nat.le_refl _
+  have hall : (unpack w bs).all (fun x => decide (InRange w x)) = true :=
+    List.all_eq_true.2 (fun x hx' => decide_eq_true (hr x hx'))
+  have h2 : convertToBytes (unpack w bs) w = .ok bs := by
+    unfold convertToBytes; simp [hk, hall, unpack_pack w hw bs ⟨k, hkk⟩]
+  rw [h1]; exact h2
+
+/-! ## 3. time → index: always on a sample boundary, and the nearest one -/
+
+/-- **the byte index of every time is a whole number of samples** — for all `t`, `rate`, `width`
+(this is what `round(t*rate) * width` bought over `round(t*rate*width)`) -/
+theorem index_aligned (t : QTime) (rate w : Nat) : (w : Int) ∣ indexAtTime t rate w :=
+  Int.dvd_mul_left _ _
+
+theorem index_div (t : QTime) (rate w : Nat) (hw : 0 < w) : indexAtTime t rate w / w = sampleAtTime t rate :=
+  Int.mul_ediv_cancel _ (by omega)
+
+/-- **the sample index used is the integer nearest to `t * rate`, ties to the even index** -/
+theorem index_nearest (t : QTime) (rate w : Nat) (hw : 0 < w) (hd : 0 < t.den) :
+    IsRoundHalfEven (t.num * rate) t.den (indexAtTime t rate w / w) := by
+  rw [index_div t rate w hw]; exact roundHalfEven_spec _ _ hd
+
+/-- no integer is nearer to `num/den` than `roundHalfEven num den` -/
+theorem roundHalfEven_nearest (num : Int) (den : Nat) (h : 0 < den) (m : Int) :
+    (roundHalfEven num den * den - num).natAbs ≤ (m * den - num).natAbs := by
+  have hs := roundHalfEven_spec num den h
+  unfold IsRoundHalfEven at hs
+  generalize roundHalfEven num den = q at *
+  rcases Int.lt_trichotomy m q with hlt | heq | hgt
+  · have : (m + 1) * (den : Int) ≤ q * den := Int.mul_le_mul_of_nonneg_right (by omega) (by omega)
+    rw [Int.add_mul, Int.one_mul] at this
+    omega
+  · subst heq; omega
+  · have : (q + 1) * (den : Int) ≤ m * den := Int.mul_le_mul_of_nonneg_right (by omega) (by omega)
+    rw [Int.add_mul, Int.one_mul] at this
+    omega
+
+theorem roundHalfEven_exact (m : Int) (den : Nat) (h : 0 < den) : roundHalfEven (m * den) den = m := by
+  apply roundHalfEven_unique (m * den) den h _ _ (roundHalfEven_spec _ _ h)
+  unfold IsRoundHalfEven
+  refine ⟨by omega, by omega, by omega⟩
+
+theorem roundHalfEven_nonneg (num : Int) (den : Nat) (h : 0 < den) (hn : 0 ≤ num) : 0 ≤ roundHalfEven num den := by
+  have hs := roundHalfEven_spec num den h
+  unfold IsRoundHalfEven at hs
+  generalize roundHalfEven num den = q at *
+  by_cases hq : 0 ≤ q
+  · exact hq
+  · exfalso
+    have : (q + 1) * (den : Int) ≤ 0 * den := Int.mul_le_mul_of_nonneg_right (by omega) (by omega)
+    rw [Int.add_mul, Int.one_mul, Int.zero_mul] at this
+    omega
+
+theorem roundHalfEven_le (num : Int) (den : Nat) (h : 0 < den) (m : Int) (hn : num ≤ m * den) :
+    roundHalfEven num den ≤ m := by
+  have hs := roundHalfEven_spec num den h
+  unfold IsRoundHalfEven at hs
+  generalize roundHalfEven num den = q at *
+  by_cases hq : q ≤ m
+  · exact hq
+  · exfalso
+    have : (m + 1) * (den : Int) ≤ q * den := Int.mul_le_mul_of_nonneg_right (by omega) (by omega)
+    rw [Int.add_mul, Int.one_mul] at this
+    omega
+
+/-- rounding is monotone -/
+theorem roundHalfEven_mono (a b : Int) (den : Nat) (h : 0 < den) (hab : a ≤ b) :
+    roundHalfEven a den ≤ roundHalfEven b den := by
+  have ha := roundHalfEven_spec a den h
+  have hb := roundHalfEven_spec b den h
+  unfold IsRoundHalfEven at ha hb
+  generalize roundHalfEven a den = p at *
+  generalize roundHalfEven b den = q at *
+  by_cases hq : p ≤ q
+  · exact hq
+  · exfalso
+    by_cases h2 : q + 2 ≤ p
+    · have : (q + 2) * (den : Int) ≤ p * den := Int.mul_le_mul_of_nonneg_right h2 (by omega)
+      rw [Int.add_mul] at this
+      omega
+    · have hp : p = q + 1 := by omega
+      subst hp
+      have e1 : (q + 1) * (den : Int) = q * den + den := by rw [Int.add_mul, Int.one_mul]
+      rw [e1] at ha
+      omega
+
+/-- rounding depends only on the value of the fraction -/
+theorem roundHalfEven_scale (num : Int) (den k : Nat) (hd : 0 < den) (hk : 0 < k) :
+    roundHalfEven ((k : Int) * num) (k * den) = roundHalfEven num den := by
+  apply roundHalfEven_unique _ _ (Nat.mul_pos hk hd) _ _ (roundHalfEven_spec _ _ (Nat.mul_pos hk hd))
+  have hs := roundHalfEven_spec num den hd
+  unfold IsRoundHalfEven at hs ⊢
+  generalize roundHalfEven num den = q at *
+  have e : 2 * (q * ((k * den : Nat) : Int) - (k : Int) * num) = (k : Int) * (2 * (q * (den : Int) - num)) := by
+    rw [Int.natCast_mul]; grind
+  rw [e, Int.natCast_mul]
+  obtain ⟨h1, h2, h3⟩ := hs
+  have hk' : (0 : Int) ≤ k := by omega
+  have m1 := Int.mul_le_mul_of_nonneg_left h1 hk'
+  have m2 := Int.mul_le_mul_of_nonneg_left h2 hk'
+  rw [Int.mul_neg] at m1
+  refine ⟨m1, m2, ?_⟩
+  intro ht
+  apply h3
+  rcases ht with ht | ht
+  · left; exact Int.eq_of_mul_eq_mul_left (by omega) ht
+  · right; rw [← Int.mul_neg] at ht; exact Int.eq_of_mul_eq_mul_left (by omega) ht
+
+/-- **the sample index depends only on the real value of the time**, not on how the fraction is written -/
+theorem sampleAtTime_eqv (a b : QTime) (ha : 0 < a.den) (hb : 0 < b.den) (h : QTime.eqv a b) (rate : Nat) :
+    sampleAtTime a rate = sampleAtTime b rate := by
+  unfold sampleAtTime
+  unfold QTime.eqv at h
+  rw [← roundHalfEven_scale (a.num * rate) a.den b.den ha hb, ← roundHalfEven_scale (b.num * rate) b.den a.den hb ha]
+  have e : (b.den : Int) * (a.num * rate) = (a.den : Int) * (b.num * rate) := by grind
+  rw [e, Nat.mul_comm b.den a.den]
+
+/-- a time inside the recording: non-negative and at most the duration -/
+def InDur (wv : Wav) (t : QTime) : Prop := 0 < t.den ∧ 0 ≤ t.num ∧ t ≤ wv.duration
+instance (wv : Wav) (t : QTime) : Decidable (InDur wv t) := inferInstanceAs (Decidable (_ ∧ _ ∧ _))
+
+/-- a recording made of whole samples of positive width -/
+def Whole (wv : Wav) : Prop := 0 < wv.width ∧ wv.width ∣ wv.frames.length
+instance (wv : Wav) : Decidable (Whole wv) := inferInstanceAs (Decidable (_ ∧ _))
+
+theorem sample_range (wv : Wav) (hwv : Whole wv) (t : QTime) (ht : InDur wv t) :
+    0 ≤ sampleAtTime t wv.rate ∧ sampleAtTime t wv.rate ≤ wv.nsamples := by
+  obtain ⟨hw, k, hk⟩ := hwv
+  obtain ⟨hd, hn, hle⟩ := ht
+  have hns : wv.nsamples = k := by unfold Wav.nsamples; rw [hk, Nat.mul_div_cancel_left _ hw]
+  refine ⟨roundHalfEven_nonneg _ _ hd (Int.mul_nonneg hn (by omega)), ?_⟩
+  unfold sampleAtTime
+  apply roundHalfEven_le _ _ hd
+  rw [hns]
+  have hle' : t.num * ((wv.rate * wv.width : Nat) : Int) ≤ ((wv.frames.length : Nat) : Int) * (t.den : Int) := hle
+  rw [hk, Int.natCast_mul, Int.natCast_mul] at hle'
+  have h2 : t.num * (wv.rate : Int) * (wv.width : Int) ≤ (k : Int) * (t.den : Int) * (wv.width : Int) := by
+    have e1 : t.num * (wv.rate : Int) * (wv.width : Int) = t.num * ((wv.rate : Int) * (wv.width : Int)) := by grind
+    have e2 : (k : Int) * (t.den : Int) * (wv.width : Int) = (wv.width : Int) * (k : Int) * (t.den : Int) := by grind
+    rw [e1, e2]; exact hle'
+  exact Int.le_of_mul_le_mul_right h2 (by omega)
+
+/-- inside the recording the byte index is inside the byte string -/
+theorem index_range (wv : Wav) (hwv : Whole wv) (t : QTime) (ht : InDur wv t) :
+    0 ≤ wv.index t ∧ wv.index t ≤ wv.frames.length := by
+  have ⟨h0, h1⟩ := sample_range wv hwv t ht
+  obtain ⟨hw, k, hk⟩ := hwv
+  have hns : wv.nsamples = k := by unfold Wav.nsamples; rw [hk, Nat.mul_div_cancel_left _ hw]
+  unfold Wav.index indexAtTime
+  refine ⟨Int.mul_nonneg h0 (by omega), ?_⟩
+  rw [hns] at h1
+  have := Int.mul_le_mul_of_nonneg_right h1 (show (0 : Int) ≤ (wv.width : Int) by omega)
+  rw [hk, Int.natCast_mul, Int.mul_comm (wv.width : Int) (k : Int)]
+  exact this
+
+/-! ## 4. edits at aligned indices act on whole samples; every other sample keeps value and order -/
+
+theorem pyClamp_of_range (n : Nat) (i : Int) (h0 : 0 ≤ i) (h1 : i ≤ n) : pyClamp n i = i.toNat := by
+  unfold pyClamp; split <;> omega
+
+/-- a non-negative multiple of `w` is `a * w` for the natural number `a = i / w` -/
+theorem aligned_index (w : Nat) (hw : 0 < w) (i : Int) (hd : (w : Int) ∣ i) (h0 : 0 ≤ i) :
+    ∃ a : Nat, i = ((a * w : Nat) : Int) ∧ (i / w).toNat = a := by
+  obtain ⟨c, hc⟩ := hd
+  have hq : i / (w : Int) = c := by rw [hc]; exact Int.mul_ediv_cancel_left _ (by omega)
+  have hc0 : 0 ≤ c := by rw [← hq]; exact Int.ediv_nonneg h0 (by omega)
+  refine ⟨c.toNat, ?_, by rw [hq]⟩
+  rw [Int.natCast_mul, Int.toNat_of_nonneg hc0, hc, Int.mul_comm]
+
+theorem aligned_delete (w : Nat) (hw : 0 < w) (f : List UInt8) (i j : Int)
+    (hi : (w : Int) ∣ i) (hj : (w : Int) ∣ j)
+    (hi0 : 0 ≤ i) (hi1 : i ≤ f.length) (hj0 : 0 ≤ j) (hj1 : j ≤ f.length) :
+    unpack w (deleteB f i j) = (unpack w f).take (i / w).toNat ++ (unpack w f).drop (j / w).toNat := by
+  obtain ⟨a, rfl, ha⟩ := aligned_index w hw i hi hi0
+  obtain ⟨b, rfl, hb⟩ := aligned_index w hw j hj hj0
+  rw [ha, hb]
+  unfold deleteB sliceTo sliceFrom
+  rw [pyClamp_of_range _ _ hi0 hi1, pyClamp_of_range _ _ hj0 hj1, Int.toNat_natCast, Int.toNat_natCast]
+  have hal : a * w ≤ f.length := by omega
+  have hbl : b * w ≤ f.length := by omega
+  rw [unpack_append w a hw _ _ (by simp [List.length_take]; omega), unpack_take w a hw f hal,
+    unpack_drop w b hw f hbl]
+
+theorem aligned_insert (w : Nat) (hw : 0 < w) (f g : List UInt8) (i : Int)
+    (hi : (w : Int) ∣ i) (hg : w ∣ g.length) (hi0 : 0 ≤ i) (hi1 : i ≤ f.length) :
+    unpack w (insertB f i g) =
+      (unpack w f).take (i / w).toNat ++ unpack w g ++ (unpack w f).drop (i / w).toNat := by
+  obtain ⟨a, rfl, ha⟩ := aligned_index w hw i hi hi0
+  obtain ⟨m, hm⟩ := hg
+  rw [ha]
+  unfold insertB sliceTo sliceFrom
+  rw [pyClamp_of_range _ _ hi0 hi1, Int.toNat_natCast]
+  have hal : a * w ≤ f.length := by omega
+  have hl1 : (f.take (a * w)).length = a * w := by simp [List.length_take]; omega
+  have hl2 : (f.take (a * w) ++ g).length = (a + m) * w := by
+    rw [List.length_append, hl1, hm, Nat.add_mul, Nat.mul_comm w m]
+  rw [unpack_append w (a + m) hw _ _ hl2, unpack_append w a hw _ _ hl1, unpack_take w a hw f hal,
+    unpack_drop w a hw f hal]
+
+theorem aligned_getFrames (w : Nat) (hw : 0 < w) (f : List UInt8) (i j : Int)
+    (hi : (w : Int) ∣ i) (hj : (w : Int) ∣ j)
+    (hi0 : 0 ≤ i) (hi1 : i ≤ f.length) (hj0 : 0 ≤ j) (hj1 : j ≤ f.length) :
+    unpack w (getB f i j) = ((unpack w f).drop (i / w).toNat).take ((j / w).toNat - (i / w).toNat) := by
+  obtain ⟨a, rfl, ha⟩ := aligned_index w hw i hi hi0
+  obtain ⟨b, rfl, hb⟩ := aligned_index w hw j hj hj0
+  rw [ha, hb]
+  unfold getB slice
+  rw [pyClamp_of_range _ _ hi0 hi1, pyClamp_of_range _ _ hj0 hj1, Int.toNat_natCast, Int.toNat_natCast]
+  have hbl : b * w ≤ f.length := by omega
+  have hl : (f.take (b * w)).length = b * w := by simp [List.length_take]; omega
+  by_cases hab : a ≤ b
+  · have : a * w ≤ b * w := Nat.mul_le_mul_right w hab
+    rw [unpack_drop w a hw _ (by omega), unpack_take w b hw f hbl, List.drop_take]
+  · have hba : b * w ≤ a * w := Nat.mul_le_mul_right w (by omega)
+    rw [List.drop_of_length_le (by omega)]
+    have : b - a = 0 := by omega
+    simp [this, unpack, unpackN]
+
+/-- the three byte-level statements together: at indices that are multiples of the width and inside the
+byte string, an edit of the bytes is the same edit of the sample list at `index / width` -/
+theorem aligned_edits (w : Nat) (hw : 0 < w) (f g : List UInt8) (i j : Int)
+    (hi : (w : Int) ∣ i) (hj : (w : Int) ∣ j) (hg : w ∣ g.length)
+    (hi0 : 0 ≤ i) (hi1 : i ≤ f.length) (hj0 : 0 ≤ j) (hj1 : j ≤ f.length) :
+    unpack w (deleteB f i j) = (unpack w f).take (i / w).toNat ++ (unpack w f).drop (j / w).toNat ∧
+    unpack w (insertB f i g) =
+      (unpack w f).take (i / w).toNat ++ unpack w g ++ (unpack w f).drop (i / w).toNat ∧
+    unpack w (getB f i j) = ((unpack w f).drop (i / w).toNat).take ((j / w).toNat - (i / w).toNat) :=
+  ⟨aligned_delete w hw f i j hi hj hi0 hi1 hj0 hj1, aligned_insert w hw f g i hi hg hi0 hi1,
+   aligned_getFrames w hw f i j hi hj hi0 hi1 hj0 hj1⟩
+
+/-! ### the same at time level: inside the recording every time addresses a whole sample -/
+
+theorem index_toNat (wv : Wav) (hw : 0 < wv.width) (t : QTime) :
+    (wv.index t / wv.width).toNat = (sampleAtTime t wv.rate).toNat := by
+  unfold Wav.index; rw [index_div _ _ _ hw]
+
+/-- **getFrames / getSamples return exactly the samples between the two nearest sample indices** -/
+theorem getFrames_samples (wv : Wav) (hwv : Whole wv) (s e : QTime) (hs : InDur wv s) (he : InDur wv e) :
+    unpack wv.width (wv.getFrames s e) =
+      (wv.samples.drop (sampleAtTime s wv.rate).toNat).take
+        ((sampleAtTime e wv.rate).toNat - (sampleAtTime s wv.rate).toNat) := by
+  have ⟨a0, a1⟩ := index_range wv hwv s hs
+  have ⟨b0, b1⟩ := index_range wv hwv e he
+  unfold Wav.getFrames Wav.samples
+  rw [aligned_getFrames wv.width hwv.1 wv.frames (wv.index s) (wv.index e) (index_aligned _ _ _) (index_aligned _ _ _) a0 a1 b0 b1,
+    index_toNat wv hwv.1, index_toNat wv hwv.1]
+
+/-- the frames returned are whole samples, so `getSamples` never raises `struct.error` -/
+theorem getSamples_ok (wv : Wav) (hwv : Whole wv) (hk : knownWidth wv.width = true) (s e : QTime)
+    (hs : InDur wv s) (he : InDur wv e) :
+    wv.getSamples s e = .ok ((wv.samples.drop (sampleAtTime s wv.rate).toNat).take
+        ((sampleAtTime e wv.rate).toNat - (sampleAtTime s wv.rate).toNat)) := by
+  have ⟨a0, a1⟩ := index_range wv hwv s hs
+  have ⟨b0, b1⟩ := index_range wv hwv e he
+  have hlen : (wv.getFrames s e).length % wv.width = 0 := by
+    obtain ⟨a, ha, _⟩ := aligned_index wv.width hwv.1 _ (index_aligned s wv.rate wv.width) a0
+    obtain ⟨b, hb, _⟩ := aligned_index wv.width hwv.1 _ (index_aligned e wv.rate wv.width) b0
+    unfold Wav.getFrames getB slice
+    unfold Wav.index at a0 a1 b0 b1 ⊢
+    rw [pyClamp_of_range _ _ a0 a1, pyClamp_of_range _ _ b0 b1, ha, hb, Int.toNat_natCast, Int.toNat_natCast]
+    have hbl : b * wv.width ≤ wv.frames.length := by omega
+    simp only [List.length_drop, List.length_take, Nat.min_eq_left hbl, ← Nat.sub_mul]
+    exact Nat.mul_mod_left _ _
+  unfold Wav.getSamples convertFromBytes
+  rw [← getFrames_samples wv hwv s e hs he]
+  simp [hk, hlen]
+
+/-- **deleteSegment removes exactly those samples; every other sample keeps value and order** -/
+theorem deleteSegment_samples (wv : Wav) (hwv : Whole wv) (s e : QTime) (hs : InDur wv s) (he : InDur wv e) :
+    (wv.deleteSegment s e).samples =
+      wv.samples.take (sampleAtTime s wv.rate).toNat ++ wv.samples.drop (sampleAtTime e wv.rate).toNat := by
+  have ⟨a0, a1⟩ := index_range wv hwv s hs
+  have ⟨b0, b1⟩ := index_range wv hwv e he
+  unfold Wav.deleteSegment Wav.samples
+  simp only
+  rw [aligned_delete wv.width hwv.1 wv.frames (wv.index s) (wv.index e) (index_aligned _ _ _) (index_aligned _ _ _) a0 a1 b0 b1,
+    index_toNat wv hwv.1, index_toNat wv hwv.1]
+
+/-- **insert places the given frames at the nearest sample boundary; the samples before and after keep
+value and order** -/
+theorem insert_samples (wv : Wav) (hwv : Whole wv) (t : QTime) (ht : InDur wv t) (g : List UInt8)
+    (hg : wv.width ∣ g.length) :
+    (wv.insert t g).samples =
+      wv.samples.take (sampleAtTime t wv.rate).toNat ++ unpack wv.width g ++
+        wv.samples.drop (sampleAtTime t wv.rate).toNat := by
+  have ⟨a0, a1⟩ := index_range wv hwv t ht
+  unfold Wav.insert Wav.samples
+  simp only
+  rw [aligned_insert wv.width hwv.1 wv.frames g (wv.index t) (index_aligned _ _ _) hg a0 a1, index_toNat wv hwv.1]
+
+theorem concatenate_samples (wv : Wav) (hwv : Whole wv) (g : List UInt8) :
+    (wv.concatenate g).samples = wv.samples ++ unpack wv.width g := by
+  obtain ⟨hw, k, hk⟩ := hwv
+  unfold Wav.concatenate Wav.samples
+  simp only
+  exact unpack_append wv.width k hw _ _ (by rw [hk, Nat.mul_comm])
+
+theorem getSubwav_samples (wv : Wav) (hwv : Whole wv) (s e : QTime) (hs : InDur wv s) (he : InDur wv e) :
+    (wv.getSubwav s e).samples =
+      (wv.samples.drop (sampleAtTime s wv.rate).toNat).take
+        ((sampleAtTime e wv.rate).toNat - (sampleAtTime s wv.rate).toNat) ∧
+    (wv.getSubwav s e).width = wv.width ∧ (wv.getSubwav s e).rate = wv.rate :=
+  ⟨getFrames_samples wv hwv s e hs he, rfl, rfl⟩
+
+/-- **replaceSegment = the samples before the start, the new samples, the samples after the end** -/
+theorem replaceSegment_samples (wv : Wav) (hwv : Whole wv) (s e : QTime) (hs : InDur wv s) (he : InDur wv e)
+    (g : List UInt8) (hg : wv.width ∣ g.length) :
+    (wv.replaceSegment s e g).samples =
+      wv.samples.take (sampleAtTime s wv.rate).toNat ++ unpack wv.width g ++
+        wv.samples.drop (sampleAtTime e wv.rate).toNat := by
+  have ⟨a0, a1⟩ := index_range wv hwv s hs
+  have ⟨b0, b1⟩ := index_range wv hwv e he
+  have hsr := (sample_range wv hwv s hs).2
+  have hU := aligned_delete wv.width hwv.1 wv.frames (wv.index s) (wv.index e) (index_aligned _ _ _)
+    (index_aligned _ _ _) a0 a1 b0 b1
+  rw [index_toNat wv hwv.1, index_toNat wv hwv.1] at hU
+  have hlen : wv.index s ≤ (deleteB wv.frames (wv.index s) (wv.index e)).length := by
+    unfold deleteB sliceTo sliceFrom
+    rw [pyClamp_of_range _ _ a0 a1, pyClamp_of_range _ _ b0 b1]
+    simp only [List.length_append, List.length_take, List.length_drop]
+    omega
+  have hins := aligned_insert wv.width hwv.1 (deleteB wv.frames (wv.index s) (wv.index e)) g (wv.index s)
+    (index_aligned _ _ _) hg a0 hlen
+  rw [index_toNat wv hwv.1, hU] at hins
+  have htl : (wv.samples.take (sampleAtTime s wv.rate).toNat).length = (sampleAtTime s wv.rate).toNat := by
+    rw [List.length_take, Wav.samples, unpack_length]
+    unfold Wav.nsamples at hsr
+    exact Nat.min_eq_left (Int.toNat_le.2 hsr)
+  unfold Wav.samples at htl
+  rw [List.take_left' htl, List.drop_left' htl] at hins
+  exact hins
+
+/-! ### histories: every state of every history is made of whole samples, for arbitrary times -/
+
+theorem pyClamp_aligned (w : Nat) (hw : 0 < w) (n : Nat) (i : Int) (hn : w ∣ n) (hi : (w : Int) ∣ i) :
+    ∃ a : Nat, pyClamp n i = a * w ∧ a * w ≤ n := by
+  obtain ⟨k, hk⟩ := hn
+  unfold pyClamp
+  split
+  · by_cases h0 : 0 ≤ i + (n : Int)
+    · have hd : (w : Int) ∣ i + (n : Int) := Int.dvd_add hi ⟨k, by rw [hk, Int.natCast_mul]⟩
+      obtain ⟨a, ha, _⟩ := aligned_index w hw _ hd h0
+      exact ⟨a, by rw [ha, Int.toNat_natCast], by omega⟩
+    · exact ⟨0, by omega, by omega⟩
+  · obtain ⟨a, ha, _⟩ := aligned_index w hw i hi (by omega)
+    by_cases hle : i.toNat ≤ n
+    · exact ⟨a, by rw [Nat.min_eq_left hle, ha, Int.toNat_natCast], by omega⟩
+    · exact ⟨k, by rw [Nat.min_eq_right (by omega), hk, Nat.mul_comm], by rw [hk, Nat.mul_comm]; exact Nat.le_refl _⟩
+
+/-- the frames an edit brings in are whole samples -/
+def WholeFrames (w : Nat) : Edit → Prop
+  | .ins _ g => w ∣ g.length
+  | .rep _ _ g => w ∣ g.length
+  | .cat g => w ∣ g.length
+  | _ => True
+
+theorem deleteB_whole (w : Nat) (hw : 0 < w) (f : List UInt8) (hf : w ∣ f.length) (i j : Int)
+    (hi : (w : Int) ∣ i) (hj : (w : Int) ∣ j) : w ∣ (deleteB f i j).length := by
+  obtain ⟨a, ha, hal⟩ := pyClamp_aligned w hw f.length i hf hi
+  obtain ⟨b, hb, hbl⟩ := pyClamp_aligned w hw f.length j hf hj
+  obtain ⟨k, hk⟩ := hf
+  unfold deleteB sliceTo sliceFrom
+  simp only [List.length_append, List.length_take, List.length_drop, ha, hb]
+  refine ⟨a + (k - b), ?_⟩
+  rw [Nat.min_eq_left hal, hk, Nat.mul_add, Nat.mul_sub, Nat.mul_comm w a, Nat.mul_comm w b]
+
+theorem insertB_whole (w : Nat) (f g : List UInt8) (hf : w ∣ f.length) (hg : w ∣ g.length) (i : Int) :
+    w ∣ (insertB f i g).length := by
+  obtain ⟨k, hk⟩ := hf
+  obtain ⟨m, hm⟩ := hg
+  unfold insertB sliceTo sliceFrom
+  simp only [List.length_append, List.length_take, List.length_drop]
+  refine ⟨k + m, ?_⟩
+  rw [Nat.mul_add]; omega
+
+theorem getB_whole (w : Nat) (hw : 0 < w) (f : List UInt8) (hf : w ∣ f.length) (i j : Int)
+    (hi : (w : Int) ∣ i) (hj : (w : Int) ∣ j) : w ∣ (getB f i j).length := by
+  obtain ⟨a, ha, _⟩ := pyClamp_aligned w hw f.length i hf hi
+  obtain ⟨b, hb, hbl⟩ := pyClamp_aligned w hw f.length j hf hj
+  unfold getB slice
+  simp only [List.length_take, List.length_drop, ha, hb]
+  refine ⟨b - a, ?_⟩
+  rw [Nat.mul_sub, Nat.min_eq_left hbl]
+  rw [Nat.mul_comm w b, Nat.mul_comm w a]
+
+/-- **every edit maps whole-sample recordings to whole-sample recordings, whatever the times**
+(negative, beyond the end, off the sample grid, start after end) -/
+theorem edit_whole (wv : Wav) (hwv : Whole wv) (e : Edit) (he : WholeFrames wv.width e) :
+    Whole (e.apply wv) ∧ (e.apply wv).width = wv.width ∧ (e.apply wv).rate = wv.rate := by
+  obtain ⟨hw, hf⟩ := hwv
+  cases e with
+  | ins t g => exact ⟨⟨hw, insertB_whole _ _ _ hf he _⟩, rfl, rfl⟩
+  | del s e => exact ⟨⟨hw, deleteB_whole _ hw _ hf _ _ (index_aligned _ _ _) (index_aligned _ _ _)⟩, rfl, rfl⟩
+  | rep s e g =>
+    exact ⟨⟨hw, insertB_whole _ _ _ (deleteB_whole _ hw _ hf _ _ (index_aligned _ _ _) (index_aligned _ _ _)) he _⟩, rfl, rfl⟩
+  | cat g =>
+    obtain ⟨k, hk⟩ := hf
+    obtain ⟨m, hm⟩ := he
+    refine ⟨⟨hw, k + m, ?_⟩, rfl, rfl⟩
+    show (wv.frames ++ g).length = wv.width * (k + m)
+    rw [List.length_append, Nat.mul_add]; omega
+  | sub s e => exact ⟨⟨hw, getB_whole _ hw _ hf _ _ (index_aligned _ _ _) (index_aligned _ _ _)⟩, rfl, rfl⟩
+
+theorem history_whole (wv : Wav) (hwv : Whole wv) (es : List Edit) (he : ∀ e ∈ es, WholeFrames wv.width e) :
+    ∀ x ∈ runEdits wv es, Whole x ∧ x.width = wv.width ∧ x.rate = wv.rate := by
+  induction es generalizing wv with
+  | nil => intro x hx; simp [runEdits] at hx
+  | cons e es ih =>
+    intro x hx
+    have h1 := edit_whole wv hwv e (he e (by simp))
+    simp only [runEdits, List.mem_cons] at hx
+    rcases hx with rfl | hx
+    · exact h1
+    · have := ih (e.apply wv) h1.1 (fun e' he' => by rw [h1.2.1]; exact he e' (by simp [he'])) x hx
+      exact ⟨this.1, by rw [this.2.1, h1.2.1], by rw [this.2.2, h1.2.2]⟩
+
+/-- hence `getSamples` / `convertFromBytes` never meet a ragged byte string in a history -/
+theorem whole_convert_ok (wv : Wav) (hwv : Whole wv) (hk : knownWidth wv.width = true) :
+    convertFromBytes wv.frames wv.width = .ok wv.samples := by
+  obtain ⟨hw, k, hk'⟩ := hwv
+  unfold convertFromBytes Wav.samples
+  have : wv.frames.length % wv.width = 0 := by rw [hk']; exact Nat.mul_mod_right _ _
+  simp [hk, this]
+
+/-! ## 5. insert, then delete the same stretch -/
+
+/-- byte level: for an insertion point inside the byte string, deleting `[i, i + |g|)` after inserting
+`g` at `i` restores the byte string — no alignment needed -/
+theorem insert_delete_inverse_bytes (f g : List UInt8) (i : Int) (h0 : 0 ≤ i) (h1 : i ≤ f.length) :
+    deleteB (insertB f i g) i (i + g.length) = f := by
+  have hc : i.toNat ≤ f.length := by omega
+  have hlen : (insertB f i g).length = f.length + g.length := by
+    unfold insertB sliceTo sliceFrom
+    simp only [List.length_append, List.length_take, List.length_drop]; omega
+  unfold deleteB sliceTo sliceFrom
+  rw [hlen, pyClamp_of_range _ _ h0 (by omega), pyClamp_of_range _ _ (by omega) (by omega)]
+  unfold insertB sliceTo sliceFrom
+  rw [pyClamp_of_range _ _ h0 h1]
+  have hl1 : (f.take i.toNat).length = i.toNat := by rw [List.length_take]; omega
+  have hl2 : (f.take i.toNat ++ g).length = (i + (g.length : Int)).toNat := by
+    rw [List.length_append, hl1]; omega
+  rw [List.append_assoc, List.take_left' hl1, ← List.append_assoc, List.drop_left' hl2, List.take_append_drop]
+
+/-- beyond the end of the byte string Python's clamping breaks the byte-level inverse
+(`insert` appends, `deleteSegment` then cuts nothing of the appended bytes) — outside `[0, duration]` -/
+theorem insert_delete_bytes_beyond_end :
+    deleteB (insertB [1, 2] 5 [9]) 5 (5 + 1) = [1, 2, 9] := by decide
+
+/-- **time level**: inserting `g` at `t` and deleting from `t` to any end time whose index is
+`index t + |g|` restores the recording exactly -/
+theorem insert_delete_inverse (wv : Wav) (hwv : Whole wv) (t e : QTime) (ht : InDur wv t) (g : List UInt8)
+    (h : wv.index e = wv.index t + g.length) :
+    (wv.insert t g).deleteSegment t e = wv := by
+  have ⟨a0, a1⟩ := index_range wv hwv t ht
+  unfold Wav.deleteSegment Wav.insert
+  show ({ wv with frames := deleteB (insertB wv.frames (wv.index t) g) (wv.index t) (wv.index e) } : Wav) = wv
+  rw [h, insert_delete_inverse_bytes _ _ _ a0 a1]
+
+/-- the same with the end time written as `t + len(g)/rate/width`; the index hypothesis is explicit
+because round-half-to-even does not commute with adding an odd number of samples at a half-sample time -/
+theorem insert_delete_inverse_dur (wv : Wav) (hwv : Whole wv) (t : QTime) (ht : InDur wv t) (g : List UInt8)
+    (h : wv.index (t + wv.durOf g) = wv.index t + g.length) :
+    (wv.insert t g).deleteSegment t (t + wv.durOf g) = wv :=
+  insert_delete_inverse wv hwv t _ ht g h
+
+/-- the recording of the counter-examples: 8 one-byte samples at 8 Hz -/
+def exWav : Wav := ⟨1, 8, [1, 2, 3, 4, 5, 6, 7, 8]⟩
+
+/-- **the index hypothesis can fail** (DESIGN §5 A15): rate 8, `t = 0.3125 = 2.5` samples, one sample
+inserted — `round(2.5) = 2` but `round(3.5) = 4` -/
+theorem insert_delete_index_counterexample :
+    exWav.index ((⟨5, 16⟩ : QTime) + exWav.durOf [77]) = 4 ∧ exWav.index ⟨5, 16⟩ + 1 = 3 := by decide
+
+/-- … and then the original is **not** restored: two samples are deleted -/
+theorem insert_delete_time_counterexample :
+    ((exWav.insert ⟨5, 16⟩ [77]).deleteSegment ⟨5, 16⟩ ((⟨5, 16⟩ : QTime) + exWav.durOf [77])).frames
+      = [1, 2, 4, 5, 6, 7, 8] ∧
+    InDur exWav ⟨5, 16⟩ ∧ Whole exWav := by decide
+
+/-! ## 6. duration -/
+
+/-- `duration = len(frames) / frameRate / sampleWidth` -/
+theorem duration_def (wv : Wav) : wv.duration = ⟨wv.frames.length, wv.rate * wv.width⟩ := rfl
+
+/-- **duration = sample count / frame rate** (as rational values) -/
+theorem duration_samples (wv : Wav) (hwv : Whole wv) : QTime.eqv wv.duration ⟨wv.nsamples, wv.rate⟩ := by
+  obtain ⟨hw, k, hk⟩ := hwv
+  have hns : wv.nsamples = k := by unfold Wav.nsamples; rw [hk, Nat.mul_div_cancel_left _ hw]
+  unfold QTime.eqv Wav.duration
+  simp only [hns, hk, Int.natCast_mul]
+  grind
+
+/-- the sample count is the length of the decoded list -/
+theorem nsamples_samples (wv : Wav) : wv.samples.length = wv.nsamples := unpack_length _ _
+
+/-! ## 7. the file round trip over the abstract file -/
+
+theorem roundHalfEven_zero (den : Nat) (h : 0 < den) : roundHalfEven 0 den = 0 := by
+  have := roundHalfEven_exact 0 den h
+  rwa [Int.zero_mul] at this
+
+/-- reading from 0 to the file's duration returns the whole frames of the data chunk -/
+theorem read_all (f : WavFile) (hr : 0 < f.rate) :
+    readFramesAtTime f QTime.zero f.duration = .ok (f.data.take (f.nframes * f.width)) := by
+  unfold readFramesAtTime
+  have e1 : roundHalfEven ((f.rate : Int) * QTime.zero.num) QTime.zero.den = 0 := by
+    show roundHalfEven ((f.rate : Int) * 0) 1 = 0
+    rw [Int.mul_zero]; exact roundHalfEven_zero 1 (by omega)
+  have e2 : roundHalfEven ((f.rate : Int) * (f.duration - QTime.zero).num) (f.duration - QTime.zero).den
+      = f.nframes := by
+    show roundHalfEven ((f.rate : Int) * ((f.nframes : Int) * ((1 : Nat) : Int) - 0 * (f.rate : Int))) (f.rate * 1) = f.nframes
+    have : (f.rate : Int) * ((f.nframes : Int) * ((1 : Nat) : Int) - 0 * (f.rate : Int)) = (f.nframes : Int) * ((f.rate * 1 : Nat) : Int) := by
+      simp only [Int.natCast_mul]; grind
+    rw [this]
+    exact roundHalfEven_exact _ _ (by omega)
+  rw [e1, e2]
+  unfold WavFile.readAt
+  have hneg : ¬ ((0 : Int) < 0 ∨ (f.nframes : Int) < 0) := by omega
+  rw [if_neg hneg]
+  by_cases hz : f.nframes = 0
+  · simp [hz]
+  · have h1 : ¬ ((f.nframes : Int) = 0) := by omega
+    have h2 : ¬ ((f.nframes : Int) < 0) := by omega
+    simp [hz, h2]
+
+theorem open_file (f : WavFile) (hr : 0 < f.rate) :
+    Wav.open f = .ok ⟨f.width, f.rate, f.data.take (f.nframes * f.width)⟩ := by
+  unfold Wav.open; rw [read_all f hr]
+
+/-- **save then open returns the same recording**: same width, rate and frames -/
+theorem save_open_roundtrip (wv : Wav) (hw1 : 1 ≤ wv.width) (hw4 : wv.width ≤ 4) (hr : 0 < wv.rate)
+    (hal : wv.width ∣ wv.frames.length) : (wv.save >>= Wav.open) = .ok wv := by
+  have hs : wv.save = .ok ⟨wv.width, wv.rate, wv.frames⟩ := by
+    unfold Wav.save
+    rw [if_neg (by omega), if_neg (by omega)]
+  rw [hs]
+  show Wav.open ⟨wv.width, wv.rate, wv.frames⟩ = .ok wv
+  rw [open_file _ hr]
+  obtain ⟨k, hk⟩ := hal
+  have : (WavFile.mk wv.width wv.rate wv.frames).nframes * wv.width = wv.frames.length := by
+    unfold WavFile.nframes
+    simp only
+    rw [hk, Nat.mul_div_cancel_left _ (by omega), Nat.mul_comm]
+  simp only [this, List.take_length]
+
+/-- for a ragged byte string `wave` drops the trailing partial sample; the samples survive anyway -/
+theorem save_open_samples (wv : Wav) (hw1 : 1 ≤ wv.width) (hw4 : wv.width ≤ 4) (hr : 0 < wv.rate) :
+    ∃ back, (wv.save >>= Wav.open) = .ok back ∧ back.samples = wv.samples ∧
+      back.width = wv.width ∧ back.rate = wv.rate := by
+  have hs : wv.save = .ok ⟨wv.width, wv.rate, wv.frames⟩ := by
+    unfold Wav.save
+    rw [if_neg (by omega), if_neg (by omega)]
+  refine ⟨⟨wv.width, wv.rate, wv.frames.take (wv.frames.length / wv.width * wv.width)⟩, ?_, ?_, rfl, rfl⟩
+  · rw [hs]; exact open_file ⟨wv.width, wv.rate, wv.frames⟩ hr
+  · unfold Wav.samples
+    simp only
+    rw [unpack_take _ _ (by omega) _ (Nat.div_mul_le_self _ _)]
+    exact List.take_of_length_le (by rw [unpack_length]; exact Nat.le_refl _)
+
+/-- **QueryWav over the saved file yields the same samples** -/
+theorem query_all (f : WavFile) (hr : 0 < f.rate) (hw : 0 < f.width) (hk : knownWidth f.width = true) :
+    QueryWav.getSamples f none none = .ok (unpack f.width f.data) := by
+  unfold QueryWav.getSamples QueryWav.getFrames
+  simp only [Option.getD_none]
+  rw [read_all f hr]
+  simp only
+  unfold convertFromBytes
+  have hle : f.nframes * f.width ≤ f.data.length := Nat.div_mul_le_self _ _
+  have hu : unpack f.width (f.data.take (f.nframes * f.width)) = unpack f.width f.data := by
+    rw [unpack_take _ _ hw _ hle]
+    exact List.take_of_length_le (by rw [unpack_length]; exact Nat.le_refl _)
+  have hl' : min (f.nframes * f.width) f.data.length % f.width = 0 := by
+    rw [Nat.min_eq_left hle]; exact Nat.mul_mod_left _ _
+  simp [hk, hl', hu]
+
+/-- on sample boundaries `readFramesAtTime` (QueryWav) and `Wav.getFrames` agree -/
+theorem query_eq_wav_on_grid (f : WavFile) (s e : QTime) (hds : 0 < s.den) (hde : 0 < e.den)
+    (k0 k1 : Nat) (h0 : s.num * f.rate = k0 * s.den) (h1 : e.num * f.rate = k1 * e.den)
+    (hle : k0 ≤ k1) (hin : k1 ≤ f.nframes) :
+    readFramesAtTime f s e = .ok (Wav.getFrames ⟨f.width, f.rate, f.data⟩ s e) := by
+  have hlen : f.nframes * f.width ≤ f.data.length := Nat.div_mul_le_self _ _
+  have hk1 : k1 * f.width ≤ f.data.length := Nat.le_trans (Nat.mul_le_mul_right _ hin) hlen
+  have hk0 : k0 * f.width ≤ k1 * f.width := Nat.mul_le_mul_right _ hle
+  have es : sampleAtTime s f.rate = k0 := by
+    unfold sampleAtTime; rw [h0]; exact roundHalfEven_exact _ _ hds
+  have ee : sampleAtTime e f.rate = k1 := by
+    unfold sampleAtTime; rw [h1]; exact roundHalfEven_exact _ _ hde
+  have p0 : roundHalfEven ((f.rate : Int) * s.num) s.den = k0 := by
+    rw [Int.mul_comm]; exact es
+  have p1 : roundHalfEven ((f.rate : Int) * (e - s).num) (e - s).den = ((k1 - k0 : Nat) : Int) := by
+    show roundHalfEven ((f.rate : Int) * (e.num * (s.den : Int) - s.num * (e.den : Int))) (e.den * s.den) = _
+    have : (f.rate : Int) * (e.num * (s.den : Int) - s.num * (e.den : Int))
+        = ((k1 - k0 : Nat) : Int) * ((e.den * s.den : Nat) : Int) := by
+      rw [Int.natCast_mul, Int.natCast_sub hle]; grind
+    rw [this]
+    exact roundHalfEven_exact _ _ (Nat.mul_pos hde hds)
+  unfold readFramesAtTime
+  rw [p0, p1]
+  unfold WavFile.readAt
+  rw [if_neg (by omega)]
+  unfold Wav.getFrames getB slice Wav.index indexAtTime
+  simp only [es, ee]
+  rw [← Int.natCast_mul, ← Int.natCast_mul, pyClamp_of_range _ _ (by omega) (by omega),
+    pyClamp_of_range _ _ (by omega) (by omega)]
+  simp only [Int.toNat_natCast]
+  rw [List.drop_take, ← Nat.sub_mul]
+  by_cases hz : k1 - k0 = 0
+  · simp [hz]
+  · have h1' : ¬ (((k1 - k0 : Nat) : Int) = 0) := by omega
+    have h2' : ¬ (((k1 - k0 : Nat) : Int) < 0) := by omega
+    simp [hz, h2']
+
+/-- … but off the sample grid they differ: `readFramesAtTime` reads `round(rate*(e-s))` frames from
+`round(rate*s)`, `Wav.getFrames` slices `[round(rate*s), round(rate*e))`.
+9 samples at 8 Hz, window `[0.0625, 0.203125]` = `[0.5, 1.625]` samples -/
+theorem query_differs_off_grid :
+    readFramesAtTime ⟨1, 8, [1, 2, 3, 4, 5, 6, 7, 8, 9]⟩ ⟨1, 16⟩ ⟨13, 64⟩ = .ok [1] ∧
+    Wav.getFrames ⟨1, 8, [1, 2, 3, 4, 5, 6, 7, 8, 9]⟩ ⟨1, 16⟩ ⟨13, 64⟩ = [1, 2] := by decide
+
+/-- with `endTime=None` the last sample of the file can be dropped: start `0.3125` = 2.5 samples,
+`round(2.5) = 2`, `round(9 - 2.5) = 6`, so frames 2..7 are read and frame 8 is not -/
+theorem query_drops_last_sample :
+    QueryWav.getFrames ⟨1, 8, [1, 2, 3, 4, 5, 6, 7, 8, 9]⟩ (some ⟨5, 16⟩) none = .ok [3, 4, 5, 6, 7, 8] := by decide
+
+/-! ## 8. non-vacuity and illustrations -/
+
+example : Whole exWav ∧ InDur exWav ⟨3, 10⟩ ∧ InDur exWav ⟨1, 1⟩ ∧ InDur exWav ⟨0, 1⟩ := by decide
+/-- the hypotheses of `insert_delete_inverse_dur` are satisfiable (off a tie: `t = 0.3`, three samples) -/
+example : exWav.index ((⟨3, 10⟩ : QTime) + exWav.durOf [7, 8, 9]) = exWav.index ⟨3, 10⟩ + 3 := by decide
+/-- … and at a tie with an even number of samples -/
+example : exWav.index ((⟨5, 16⟩ : QTime) + exWav.durOf [7, 8]) = exWav.index ⟨5, 16⟩ + 2 := by decide
+example : InRange 1 (-128) ∧ InRange 1 127 ∧ ¬ InRange 1 128 ∧ InRange 2 (-32768) ∧ InRange 4 2147483647 := by decide
+example : knownWidth 1 = true ∧ knownWidth 2 = true ∧ knownWidth 4 = true ∧ knownWidth 3 = false := by decide
+
+#guard roundHalfEven 5 2 = 2 && roundHalfEven 7 2 = 4 && roundHalfEven (-5) 2 = -2 && roundHalfEven (-1) 3 = 0
+#guard indexAtTime ⟨3, 10⟩ 8 2 = 4          -- A4: was 5 with round(t*rate*width)
+#guard pack 2 [-32768, 32767, -1] = [0x00, 0x80, 0xff, 0x7f, 0xff, 0xff]
+#guard pack 1 [-128, 127, -1] = [0x80, 0x7f, 0xff]          -- width 1 is the signed code `b`
+#guard unpack 4 [0x00, 0x00, 0x00, 0x80, 0xff, 0xff, 0xff, 0x7f] = [-2147483648, 2147483647]
+#guard unpack 2 [1, 0, 2] = [1]
+#guard convertFromBytes [1, 0, 2] 2 = .error .StructError
+#guard convertToBytes [128] 1 = .error .StructError
+#guard slice [0, 1, 2, 3, 4, 5] (-2) 9 = [4, 5] && sliceTo [0, 1, 2, 3, 4, 5] (-2) = [0, 1, 2, 3]
+#guard (exWav.deleteSegment ⟨3, 10⟩ ⟨8, 10⟩).frames = [1, 2, 7, 8]
+#guard (exWav.replaceSegment ⟨3, 10⟩ ⟨8, 10⟩ [50, 51]).frames = [1, 2, 50, 51, 7, 8]
+#guard (exWav.save >>= Wav.open) = .ok exWav
+#guard (Wav.mk 2 8 [1, 2, 3, 4, 5]).save >>= Wav.open = .ok ⟨2, 8, [1, 2, 3, 4]⟩
+#guard readFramesAtTime ⟨1, 8, [1, 2, 3]⟩ ⟨2, 1⟩ ⟨3, 1⟩ = .error .WaveError
+end C16
